@@ -23,7 +23,7 @@ UFmtDemands(e) ==
     <<"C05.string",  e.str = txt>>,
     <<"C05.mtext",   e.mt = txt>>,
     <<"C05.stable",  e.mt2 = txt /\ e.str2 = txt>>,
-    <<"C05.held",    e.held = txt /\ e.heldf = txt>>,
+    <<"C05.held",    e.held = txt /\ e.heldf = txt /\ e.helds = txt /\ e.heldu = urn>>,
     <<"C05.verb_s",  e.vs = txt>>,
     <<"C05.verb_u",  e.vu = urn>>,
     <<"C16.urn",     e.urn = urn>>,
